@@ -1,4 +1,4 @@
-CONSTANTS Tier = "quick" Part = "goals" MaxSteps = 800 MaxAns = 40
+CONSTANTS Tier = "quick" Part = "goals" MaxSteps = 300 MaxAns = 40
 INIT Init
 NEXT Next
 INVARIANT MachInv
